@@ -302,7 +302,7 @@ theorem C16_strict_panic_witness :
    are words, quoted phrases of any characters (printed with escapes) with slop / prefix star, field
    prefixes, bracketed and elastic ranges, sets, `*`, `name:*`, `NOT x`.
    (5) boosts on words, phrases, parenthesised lists, bracketed ranges and sets (`C16_print_parse_boosted`).
-   Still open in the ∀ form: boosts after elastic ranges, `*`, `name:*` and `NOT x`, escapes inside unquoted words, single-quoted phrases, regex leaves, `name:(group)`, negative
+   Still open in the ∀ form: boosts after elastic ranges, `*`, `name:*` and `NOT x`, escapes inside unquoted words, single-quoted phrases, regex leaves, negative
    numbers, `*` as a range bound, blanks inside elastic ranges, unicode blanks as separators. -/
 /-- **print/parse at leaf level, for all words**: the strict parser (with or without the guard)
     reads a word of ASCII letters and digits that is not `OR`/`AND`/`NOT`/`IN` as the unfielded,
@@ -354,7 +354,8 @@ theorem C16_print_parse_nested (guard : Bool) (lead : Nat) (occ : Option Occur) 
     word, a quoted phrase (any characters, optional slop / prefix star), either with a field prefix,
     a parenthesised list, a bracketed range or a set, the latter two also with a field prefix
     (`WFB true`); every other item is a well-formed operand of `C16_print_parse_nested`,
-    a parenthesised list of such items, or `NOT` of an unboosted one (`WFB false`). The strict parser
+    a parenthesised list of such items, `name:( … )` of such items (read as the list's tree with
+    `set_default_field name`; it may be boosted too), or `NOT` of an unboosted one (`WFB false`). The strict parser
     reads the printed text as `rewrite_ast` of the tree the structure denotes, in which a boosted
     operand's tree is wrapped by `applyBoost` with the value the grammar computes from the decimal
     text (`BoostLit.val`: a boost of exactly one leaves the tree unchanged). -/
@@ -378,6 +379,21 @@ example :
   · exact .boostGroup 0 none _ [] 0 false (fun _ => false) (.base _ (.word _ ⟨by simp, by decide, by decide⟩))
       (by intro it hi; cases hi) _ ⟨by simp, by decide, by decide⟩
   · exact .boostRange _ _ _ _ ⟨by simp, by decide⟩ ⟨by simp, by decide⟩ _ ⟨by simp, by decide, by simp⟩
+
+/-- `t:(a -"b c")` is a well-formed item: the list's tree with the default field `t` on both leaves -/
+example :
+    let fgp := fieldGroupOpd ['t'] 0 none (wordOpd ['a']) [⟨none, some .mustNot, phraseEscOpd ['b', ' ', 'c'] .none, 0, 0⟩] 0
+    fgp.text = ['t', ':', '(', 'a', ' ', '-', '"', 'b', ' ', 'c', '"', ')']
+    ∧ fgp.leaf = .clause [(none, .leaf (.literal (some ['t']) ['a'] .none 0 false)),
+        (some .mustNot, .leaf (.literal (some ['t']) ['b', ' ', 'c'] .double 0 false))]
+    ∧ WFB false fgp := by
+  refine ⟨by decide, rfl, ?_⟩
+  refine .fieldGroup _ 0 none _ _ 0 false (fun _ => false) ⟨by simp, by decide, by decide⟩
+    (.base _ (.word _ ⟨by simp, by decide, by decide⟩)) ?_
+  intro it hi
+  simp only [List.mem_singleton] at hi
+  subst hi
+  exact .base _ (.phraseEsc _ _ trivial)
 
 /-- the tree of a printed list is the strict fold of the operands' trees (the subject of the
     fold-layer theorems) -/
